@@ -223,6 +223,7 @@ func tlsfBlockSize(cfg int) int {
 //	0: K arbitrary operations from a fresh block
 //	1: recipe T(3,F,pi): 3 allocations, then frees of a chosen subset in a chosen order, then K2 arbitrary operations
 //	2: three holes (sizes 1..64, all filed in one free list) separated by live allocations, freed in any order
+//	3: one 100-byte hole at the unaligned offset 10 between two live allocations, then 2 operations with symbolic alignment
 func tlsfHistory(prop int, cfg int) {
 	B := tlsfBlockSize(cfg)
 	m := NewTLSFBlockMetadata(1, nullGran{})
@@ -271,6 +272,15 @@ func tlsfHistory(prop int, cfg int) {
 			K = 2
 		}
 	}
+	if cfg/10 == 3 {
+		// one hole at an unaligned offset between two live allocations: [0,10) live, [10,110) hole, 16-byte separator;
+		// then an aligned request into the hole and a request into what is left of it
+		s.allocRange("leadSize", 10, 10)
+		s.allocRange("holeSize", 100, 100)
+		s.allocRange("sepSize", 16, 16)
+		s.free(1, true)
+		K = 2
+	}
 	endOnly := prop == pC01 || prop == pC03
 	if endOnly {
 		lo := 1
@@ -288,7 +298,7 @@ func tlsfHistory(prop int, cfg int) {
 		}
 		switch verifChoice("op", nops) {
 		case 0:
-			s.alloc(step >= 1, false)
+			s.alloc(step >= 1 || cfg/10 == 3, false)
 		case 1:
 			s.free(verifChoice("victim", len(s.live)), false)
 		}
